@@ -300,8 +300,9 @@ func (e *env) fieldGridDirect() {
 	e.kv.ResetFaults()
 	rc := e.s.GetReplicationConfig()
 	rc.LocationLabels, rc.IsolationLevel = []string{"zone", "rack"}, ""
-	if e.s.SetReplicationConfig(*rc) != nil || !e.consistent() {
-		r.Inconclusive("single-field grid: setup failed")
+	e.s.GetPersistOptions().SetReplicationConfig(rc) // base state installed by the harness itself
+	if !e.consistent() {
+		r.Inconclusive("single-field grid: setup failed: stored and served configuration differ")
 		return
 	}
 	base := e.capture()
@@ -358,13 +359,19 @@ func (ru *running) fieldGridHTTP() {
 	r := ru.r
 	ru.env.phase = "single-field-http"
 	ru.kv.ResetFaults()
+	// base state, installed by the harness itself (the random updates before may have left a
+	// replication section that pd refuses to change through the setter, e.g. max-replicas 0 with
+	// placement rules on): served section, stored configuration, default rule
 	rc := ru.s.GetReplicationConfig()
-	rc.LocationLabels, rc.IsolationLevel = []string{"zone", "rack"}, ""
-	if ru.s.SetReplicationConfig(*rc) != nil || !ru.consistent() {
-		r.Inconclusive("single-field http grid: setup failed")
+	rc.MaxReplicas, rc.LocationLabels, rc.IsolationLevel = 3, []string{"zone", "rack"}, ""
+	ru.s.GetPersistOptions().SetReplicationConfig(rc)
+	ru.syncDefaultRule()
+	if !ru.consistent() {
+		rel, err := ru.reload()
+		_, d := diff(normalised(servedSecs(ru.s)), normalised(rel))
+		r.Inconclusive("single-field http grid: setup failed: stored and served configuration differ (%v) %s", err, clip(d))
 		return
 	}
-	ru.syncDefaultRule()
 	base := ru.captureServed()
 	stored := ru.stored()
 	restore := func() {
@@ -405,12 +412,7 @@ func (ru *running) fieldGridHTTP() {
 		vals := sp.values(ru.sectionValue(sp.sec).FieldByIndex(sp.path))
 		for _, fv := range vals {
 			for _, j := range fv.jsons {
-				if js, ok := j.(string); ok && ((sp.tag == "leader-schedule-policy" && js != "count" && js != "size") || (sp.tag == "key-type" && js != "table" && js != "raw" && js != "txn")) {
-					// pd accepts it and its background statistics job then panics into log.Fatal: the
-					// process would be gone; these values are judged on the not-started server only
-					r.Count("skipped_process_killing_value_on_running_server", 1)
-					continue
-				}
+
 				if sp.tag == "replication-mode" && (j == "dr-auto-sync" || j == "DR_AUTO_SYNC") {
 					continue // starts the DR state machine (C19)
 				}
